@@ -2,24 +2,30 @@
 (* CPR on every 4 x 4 matrix with two full 2 x 2 diagonal blocks (values chosen so  *)
 (* that no pivot vanishes for salt 0, and some do for salt 1) and every pattern of  *)
 (* the two off-diagonal blocks; block_size 2; active_rows 0 (= all) or 2.           *)
+(* dm: which of the four off-diagonal entries INSIDE the diagonal blocks are stored  *)
+(* (15 = full blocks); ClearScratch / AdjointInUpdate = TRUE transcribe the code as  *)
+(* written, FALSE are the two variants that must violate ScratchInv / BlockUpdateInv.*)
 EXTENDS Cpr, Patterns, TLC
-VARIABLES om, salt, act, kk, ww, pc
-vars == <<om, salt, act, kk, ww, pc>>
+CONSTANTS ClearScratch, AdjointInUpdate
+VARIABLES om, dm, salt, act, kk, ww, pc
+vars == <<om, dm, salt, act, kk, ww, pc>>
 B == 2
 \* bit k of om: off-diagonal entry number k (rows 0,1 x cols 2,3 then rows 2,3 x cols 0,1)
 OffPos == <<<<0, 2>>, <<0, 3>>, <<1, 2>>, <<1, 3>>, <<2, 0>>, <<2, 1>>, <<3, 0>>, <<3, 1>>>>
 DiagVal(i, j, s) == IF s = 0 THEN (IF i = j THEN 3 + i ELSE IF i < j THEN 1 ELSE -2)
                     ELSE (IF i = j THEN (IF i = 0 THEN 0 ELSE 2) ELSE 1)                  \* salt 1: zero leading pivot
-KOf(o, sl) == FromRows(4, 4, [r \in 1..4 |->
+InDiag == <<<<0, 1>>, <<1, 0>>, <<2, 3>>, <<3, 2>>>>
+KOf(o, dg, sl) == FromRows(4, 4, [r \in 1..4 |->
         LET i == r - 1
-            cols == SelectSeq(<<0, 1, 2, 3>>, LAMBDA j : (i \div 2 = j \div 2) \/
+            cols == SelectSeq(<<0, 1, 2, 3>>, LAMBDA j : (i = j) \/
+                        (\E k \in 1..4 : InDiag[k] = <<i, j>> /\ Bit(dg, k - 1)) \/
                         \E k \in 1..8 : OffPos[k] = <<i, j>> /\ Bit(o, k - 1))
         IN  [q \in 1..Len(cols) |-> <<cols[q], IF i \div 2 = cols[q] \div 2 THEN DiagVal(i, cols[q], sl) ELSE PatVal(i, cols[q], 2)>>]])
 \* the matrix and the weights are computed once per configuration
-Init == /\ om \in 0..255 /\ salt \in {0, 1} /\ act \in {0, 2} /\ pc = "w"
-        /\ kk = KOf(om, salt)
+Init == /\ om \in 0..255 /\ dm \in 0..15 /\ (dm = 15 \/ om % 16 = 5) /\ salt \in {0, 1} /\ act \in {0, 2} /\ pc = "w"
+        /\ kk = KOf(om, dm, salt)
         /\ ww = [ip \in 1..NPof(kk, B, act) |-> WeightsRun(kk, B, ip - 1)]
-Next == pc = "w" /\ pc' = "app" /\ UNCHANGED <<om, salt, act, kk, ww>>
+Next == pc = "w" /\ pc' = "app" /\ UNCHANGED <<om, dm, salt, act, kk, ww>>
 K == kk
 W == [ip \in 1..Len(ww) |-> ww[ip].y]
 AllOk == \A ip \in 1..Len(ww) : ww[ip].ok
@@ -27,6 +33,8 @@ WeightsInv == pc = "w" => \A ip \in 0..(NPof(K, B, act) - 1) : WeightsOK(K, B, i
 AppInv     == (pc = "app" /\ AllOk) => AppDefOK(K, B, act, W)
 SameInv    == (pc = "app" /\ act = 0) => ScalarBlockSameOK(K, B)
 UpdateInv  == pc = "app" => PartialUpdateNoop(K, B, act)
+ScratchInv == pc = "w" => ScratchOK(K, B, act, ClearScratch)
+BlockUpdateInv == (pc = "app" /\ act = 0) => BlockPartialUpdateNoop(K, B, AdjointInUpdate)
 \* with exact inner solves the two-stage formula reproduces x for f = A x when S is exact (x0 = x, zero residual)
 \* and, for S = 0, returns Scatter App^-1 Fpp f
 FormulaInv == (pc = "app" /\ AllOk /\ act = 0 /\ Regular(AppDense(K, B, act, W))) =>
